@@ -121,6 +121,14 @@ func runC04(c *Ctx) {
 		}
 	}
 
+	// replies a request cannot be answered with: they are no acknowledgement, and no reason to crash
+	for _, cb := range []string{"nil", "err", "panic"} {
+		add(&c04Case{retries: 2, begin: "emptyxid", cb: cb, script: []string{"ok"}, cancelAt: -1})
+		add(&c04Case{retries: 2, begin: "wrongtype", cb: cb, script: []string{"ok"}, cancelAt: -1})
+		add(&c04Case{retries: 2, begin: "ok", cb: cb, script: []string{"wrongtype"}, cancelAt: -1})
+		add(&c04Case{retries: 2, begin: "ok", cb: cb, script: []string{"transport", "wrongtype"}, cancelAt: -1})
+	}
+
 	// a nested scope inside the business must not change what the launcher decides and sends for its own
 	// transaction (the model's prediction is the one of the plain case)
 	for _, inner := range innerScopes {
@@ -153,6 +161,11 @@ func runC04(c *Ctx) {
 				return Action{TransportE: true}
 			case "failed":
 				return Action{Body: message.GlobalBeginResponse{AbstractTransactionResponse: failHead("refused")}}
+			case "emptyxid":
+				// acknowledged, but no transaction id in the reply
+				return Action{Body: message.GlobalBeginResponse{AbstractTransactionResponse: okHead()}}
+			case "wrongtype":
+				return Action{Body: message.GlobalCommitResponse{AbstractGlobalEndResponse: message.AbstractGlobalEndResponse{AbstractTransactionResponse: okHead(), GlobalStatus: message.GlobalStatusCommitted}}}
 			}
 			xid := coord.NewXid()
 			mapMu.Lock()
@@ -214,6 +227,12 @@ func runC04(c *Ctx) {
 			switch reply {
 			case "transport":
 				return Action{TransportE: true}
+			case "wrongtype":
+				// a body of another message type under the request's id
+				if isCommit {
+					return Action{Body: message.GlobalRollbackResponse{AbstractGlobalEndResponse: message.AbstractGlobalEndResponse{AbstractTransactionResponse: okHead(), GlobalStatus: message.GlobalStatusRollbacked}}}
+				}
+				return Action{Body: message.GlobalBeginResponse{AbstractTransactionResponse: okHead(), Xid: "not-an-end-response"}}
 			case "failed":
 				if isCommit {
 					head, status := failHead("refused"), message.GlobalStatusCommitFailed
